@@ -85,9 +85,13 @@ impl Du {
         self.unary(1.0 / x, -1.0 / (x * x), 2.0 / (x * x * x), false)
     }
     pub fn div(self, o: Du) -> Du {
-        let mut r = self.mul(o.recip());
-        r.v = self.v / o.v;
-        r
+        // computed directly (not as self * 1/o): the reciprocal of a subnormal divisor is not representable
+        let y = o.v.abs();
+        let q = self.v / o.v;
+        let dq = (self.d - q * o.d) / o.v;
+        let m = (self.m + q.abs() * o.m) / y + q.abs();
+        let md = (self.md + q.abs() * o.md + m * o.d.abs()) / y + (o.m / y) * dq.abs() + 2.0 * dq.abs();
+        Du { v: q, d: dq, m, md, ex: false, amb: self.amb || o.amb }
     }
     pub fn exp(self) -> Du {
         let e = self.v.exp();
